@@ -164,6 +164,13 @@ def fold( e, env=None ):
             f_ = _env_get( env, d_ )
             if f_ is not NoFold and callable( f_ ):
                 return _call( f_, [ fold( a, env ) for a in e.args ], { k.arg: fold( k.value, env ) for k in e.keywords } )
+    if isinstance( e, ast.Call ) and isinstance( e.func, ast.Attribute ) and env is not None and all( k.arg for k in e.keywords ):
+        try:
+            base_ = fold( e.func.value, env )
+        except NoFold:
+            base_ = None
+        if isinstance( base_, _Record ) and callable( getattr( base_, e.func.attr, None )):
+            return _call( getattr( base_, e.func.attr ), [ fold( a, env ) for a in e.args ], { k.arg: fold( k.value, env ) for k in e.keywords } )
     if isinstance( e, ast.Call ) and isinstance( e.func, ast.Name ) and e.func.id in _SAFE_BUILTINS and _SAFE_BUILTINS[e.func.id] is not None and not e.keywords:
         args = [ fold( a, env ) for a in e.args ]
         try:
